@@ -459,7 +459,10 @@ let gen_render r ~tier oc =
       "{% if pmix.Title %}y{% endif %}", "y"; "{{ mis[1] }}{{ msi.a }}{{ ss[0] }}{{ arr[2] }}", "a1a3";
       "{{ nmss.a }}{{ nmss['b'] }}{{ nmss.zz }}|{{ nmsa.a }}|{{ nmis[1] }}{{ nmis[9] }}|{{ nmst.T.a }}{{ nmst.N[0] }}", "xy|1|one|t7" ];
   List.iter (fun tpl -> emit_render oc "special" tpl)
-    [ "{{ range(0, 9223372036854775807)|length }}"; "{{ range(1, 1000000000)|length }}"; "{{ range(9223372036854775807, 9223372036854775807)|length }}";
+    [ "{% include 'inc' with {'a': 1 / 0} %}"; "{% include 'inc' with {'a': nosuchfn()} %}"; "{% for i in [1, 2] %}{% include 'inc' with {'a': i % 0} %}{% endfor %}";
+      "{% include 'inc' with {'a': undefined_var|nosuchfilter} only %}"; "{% include nosuchfn() with {'a': 1} %}"; "{% include 'nothere' with {'a': 1 / 0} ignore missing %}";
+      "{% import 'macros' as mm %}{{ mm.m(1 / 0) }}"; "{% from 'macros' import m %}{{ m(nosuchfn()) }}"; "{% extends 'base' %}{% block body %}{{ 1 / 0 }}{% endblock %}";
+      "{{ range(0, 9223372036854775807)|length }}"; "{{ range(1, 1000000000)|length }}"; "{{ range(9223372036854775807, 9223372036854775807)|length }}";
       "{{ range(0, 9223372036854775807, 5000000000000000000)|length }}"; "{{ range(1, 3, 0) }}"; "{{ range(3, 1, 1)|length }}"; "{{ range(1, 3, -1)|length }}";
       "{{ range(minint, 1)|length }}"; "{{ range(nan, 1)|length }}"; "{{ 1|number_format(9223372036854775807) }}"; "{{ 1|number_format(1000000000)|length }}";
       "{{ 'abc'|slice(1, 9223372036854775807) }}"; "{{ [1, 2, 3]|slice(1, 9223372036854775807)|length }}"; "{{ random(-2, 9223372036854775807) }}";
